@@ -85,6 +85,8 @@ def run(ck, F):
     # String stands for its spelling only if it views every byte of it (a view cut at the first NUL makes `ab\\0cd` and `ab` one name)
     R_sc = ck.rule('C04.string-content', 'the String a spelling is interned as views the data and the length of the one arena header made from '
                    '(word.data(), word.length()): every byte of the request, embedded NULs included, and no other', floor=1)
+    import c03 as _c03
+    _c03.one_pool(ck, F, 'C04')
     import arena as _arena
     for inst_, ok_, msg_, loc_, fid_ in _arena.owned_bytes(F):
         ck.check(R_sc, inst_, ok_, msg_ + ' -- two different spellings can then be one Identifier / Logogram, or one spelling two', loc=loc_, fn=fid_)
